@@ -61,6 +61,11 @@ def segments(sp):
 SCEN = {"fresh": "ScFresh", "reeval": "ScReeval", "stored": "ScStored", "ppo_get": "ScPPOGet", "ppo_eval": "ScPPOEval",
         "ppo_learn": "ScPPOLearn", "ippo_get": "ScFresh", "ippo_learn": "ScIPPOLearn"}
 IPPO_IDS = ["a_0", "a_1", "b_0"]
+# what an actor can go through before it is evaluated: every mutation method it advertises, an activation change, clone()
+# of the network and clone() of its distribution head
+PREPS = ["add_latent_node", "remove_latent_node", "encoder.add_node", "encoder.remove_node", "head_net.add_layer", "head_net.remove_layer",
+         "head_net.add_node", "head_net.remove_node", "change_activation", "clone", "head_clone"]
+PPO_PREPS = ["add_latent_node", "remove_latent_node", "encoder.add_node", "head_net.add_node", "head_net.add_layer", "agent_clone"]
 
 
 # ------------------------------------------------------------------ instrumentation (outside the code under test)
@@ -261,6 +266,27 @@ class C16(vlib.Driver):
                                       "B": nrows, "T": T, "E": Ee, "seed": rng.randrange(10 ** 6), "logit_mode": rng.choice(["net", "scaled"]),
                                       "std_init": rng.choice([0.0, 0.5]), "std_perturb": rng.random() < 0.5,
                                       "mask_kind": rng.choice(["partial", "single"]) if masked else "none", "partial_cfg": False})
+            # actors that went through architecture mutations / clone() BEFORE they are evaluated (recreate_network, preserve_parameters,
+            # clone re-build the EvolvableDistribution: squash flag, log_std and masks must survive)
+            for sp in self.space_grid(rng, tier):
+                box = sp["kind"] == "box"
+                for flag in (False, True):
+                    squash, masked = (flag if box else rng.random() < 0.15), ((not box) and flag)
+                    preps = list(PREPS) if (box and squash) else rng.sample(PREPS, 3 if tier == "quick" else 6)
+                    for k, prep in enumerate(preps):
+                        scen, variant = [("fresh", ""), ("stored", "other"), ("reeval", ""), ("stored", "same")][(k + rep) % 4]
+                        cases.append({"api": "actor", "scenario": scen, "variant": variant, "space": sp, "squash": squash, "masked": masked,
+                                      "B": rng.choice([2, 3, 4]), "seed": rng.randrange(10 ** 6), "logit_mode": rng.choice(["net", "scaled"]),
+                                      "std_init": rng.choice([-1.0, 0.0, 0.5]), "std_perturb": True,
+                                      "mask_kind": rng.choice(["partial", "single"]) if masked else "none",
+                                      "partial_cfg": rng.random() < 0.3, "prep": [prep] if rng.random() < 0.7 else [prep, rng.choice(PREPS)]})
+                    ppreps = list(PPO_PREPS) if (box and squash) else rng.sample(PPO_PREPS, 1 if tier == "quick" else 3)
+                    for k, prep in enumerate(ppreps):
+                        scen, variant = [("ppo_get", ""), ("ppo_eval", "other")][(k + rep) % 2]
+                        cases.append({"api": "ppo", "scenario": scen, "variant": variant, "space": sp, "squash": squash, "masked": masked,
+                                      "B": rng.choice([2, 3, 4]), "seed": rng.randrange(10 ** 6), "logit_mode": "net",
+                                      "std_init": rng.choice([0.0, 0.5]), "std_perturb": True,
+                                      "mask_kind": rng.choice(["partial", "single"]) if masked else "none", "partial_cfg": False, "prep": [prep]})
             cases.append({"api": "ippo", "scenario": "ippo_get", "variant": "", "space": {"kind": "box", "low": [-1.0, -2.0], "high": [1.0, 2.0]},
                           "squash": True, "masked": False, "B": 3, "T": 2, "E": 1, "seed": rng.randrange(10 ** 6), "logit_mode": "net",
                           "std_init": 0.0, "std_perturb": False, "mask_kind": "none", "partial_cfg": False})
@@ -322,12 +348,57 @@ class C16(vlib.Driver):
                 lin.bias.copy_(torch.as_tensor(vals, dtype=torch.float32))
             if sp["kind"] == "box" and case["std_perturb"]:
                 actor.head_net.log_std.add_(torch.as_tensor(g.normal(0, 0.4, actor.head_net.log_std.shape), dtype=torch.float32))
+        self._prep_info = None
+        if case.get("prep"):
+            agent, actor = self.apply_prep(case, agent, actor)
+        return agent, actor
+
+    def apply_prep(self, case, agent, actor):
+        """architecture mutations / clones applied to a built (and tweaked) actor before it is observed"""
+        box = case["space"]["kind"] == "box"
+        before = actor.head_net.log_std.detach().clone() if box else None
+        advertised = list(actor.mutation_methods)
+        done = []
+
+        def call(net, name, **kw):
+            obj = net
+            parts = name.split(".")
+            for q in parts[:-1]:
+                obj = getattr(obj, q)
+            return getattr(obj, parts[-1])(**kw)
+        for prep in case["prep"]:
+            if prep == "clone":
+                actor = actor.clone()
+            elif prep == "head_clone":
+                actor.head_net = actor.head_net.clone()
+            elif prep == "agent_clone":
+                agent = agent.clone()
+                actor = agent.actor
+            elif prep == "change_activation":
+                actor.change_activation("Tanh" if case["seed"] % 2 else "ELU", output=False)
+            else:
+                if prep not in advertised:
+                    raise RuntimeError(f"the actor no longer advertises mutation method {prep}: {advertised}")
+                ret = call(actor, prep)
+                if agent is not None:       # what Mutations does: same mutation on the critic where it applies, then the hook
+                    if not prep.startswith("head_net"):
+                        try:
+                            call(agent.critic, prep, **(ret if isinstance(ret, dict) else {}))
+                        except TypeError:
+                            call(agent.critic, prep)
+                    agent.mutation_hook()
+            done.append(prep)
+        after = actor.head_net.log_std.detach().clone() if box else None
+        self._prep_info = {"done": done, "advertised": advertised,
+                           "log_std_kept": (bool(torch.equal(before, after)) if box else True),
+                           "log_std_before": (f64(before).reshape(-1).tolist() if box else None)}
         return agent, actor
 
     def run_impl(self, case):
         sp, B, scen = case["space"], case["B"], case["scenario"]
         torch.manual_seed(case["seed"])
         np.random.seed(case["seed"] % (2 ** 31))
+        random.seed(case["seed"])
         g = np.random.default_rng(case["seed"])
         if scen == "ppo_learn":
             return self.run_ppo_learn(case, g)
@@ -439,7 +510,7 @@ class C16(vlib.Driver):
                                and torch.equal(torch.tanh(tap.draws[-1]), stored))
             else:
                 raise ValueError(scen)
-        return {"env": env, "out": out, "hit": hit}
+        return {"env": env, "out": out, "hit": hit, "prep": self._prep_info}
 
     def tweak_head(self, actor, case, g):
         lin = last_linear(actor.head_net.wrapped)
@@ -731,7 +802,8 @@ class C16(vlib.Driver):
         sq = case["squash"] and box
         vs = []
         one = "1" if (ncomp(sp) == 1 and scen in ("ppo_learn", "ippo_learn")) else ""
-        site = f"{case['api']}:{scen}:{sp['kind']}{one}:{'squash' if (case['squash'] and box) else 'plain'}"
+        ptag = ("+" + "+".join(case["prep"])) if case.get("prep") else ""
+        site = f"{case['api']}:{scen}{ptag}:{sp['kind']}{one}:{'squash' if (case['squash'] and box) else 'plain'}"
         if obs.get("raised"):
             return [Violation("raises", f"raises:{site}", f"the call raised {obs['raised']} on a valid configuration")]
 
@@ -739,6 +811,10 @@ class C16(vlib.Driver):
             vs.append(Violation(clause, f"{clause}:{site}", detail))
 
         ls = env["log_std"][0] if box else None
+        pi = obs.get("prep")
+        if pi and not pi["log_std_kept"]:
+            V("params-kept", f"after {pi['done']} the learned log_std {pi['log_std_before']} became {ls}: the policy's distribution "
+              "parameters must survive architecture mutations and clone()")
         for name in ("lp", "lp2"):
             if name in out and len(out[name]) != B:
                 V("shape", f"{name} has {len(out[name])} entries for a batch of {B} rows (one log-probability per row expected)")
@@ -826,7 +902,7 @@ class C16(vlib.Driver):
 
     # ---------- evidence helpers
     def key(self, case):
-        k = {x: case[x] for x in ("api", "scenario", "variant", "space", "squash", "masked", "B", "logit_mode", "std_init", "mask_kind", "seed")}
+        k = {x: case.get(x) for x in ("api", "scenario", "variant", "space", "squash", "masked", "B", "logit_mode", "std_init", "mask_kind", "seed", "prep")}
         return super().key(k)
 
     def nontrivial(self, case, obs):
@@ -843,6 +919,10 @@ class C16(vlib.Driver):
                 f"net_config={'partial' if case['partial_cfg'] else 'complete'}"]
         if sp["kind"] == "box" and case["squash"]:
             labs.append("branch=cached-sample" if case["scenario"] in ("fresh", "reeval", "ppo_get") else "branch=atanh-of-stored")
+        for q in case.get("prep") or []:
+            labs.append(f"prepared-by={q}")
+        if not case.get("prep"):
+            labs.append("prepared-by=none(freshly built)")
         if obs.get("hit"):
             labs.append("branch=stored-tensor-equals-tanh-of-current-draw(saturated)")
         if self.nontrivial(case, obs):
